@@ -69,3 +69,13 @@ claim("C18", "other",
       "All 16 envelope shapes (3 periods), DAC monotonicity/range, 7 pan triples, decode of R0-R13 and ignoring of 14/15, 0-acts-as-1 clamps, mixer bit polarity, ZXAyChip select/read/write pairing.",
       "Not decided: frequencies, envelope period in seconds, filtered amplitudes, finiteness of floating-point output (numeric).",
       "DESIGN.md §3 C18")
+claim("C19", "other",
+      "guard/dominance of every audio-queue push by 'len < samples_per_frame' on complete path sets of ZXMixer::process/new_frame; constant propagation of FPS; mod-ref; constant beeper table",
+      "samples_per_frame = rate/50, queue-bound guard, exact padding at frame end, position clamp, mixer advanced from wait_internal with the clamped frame fraction, beeper levels, writer/consumer sets.",
+      "Not decided: uniform spacing, edge placement within one sample, amplitude bound (floating point).",
+      "DESIGN.md §3 C19")
+claim("C20", "other",
+      "path-sensitive interpretation of update_ay and of one play() iteration (mono, stereo) for symbolic player state and buffer; symbol-provenance non-interference; sibling comparison",
+      "R13 skip rule, register copies, samples_per_frame, frame pacing per iteration, chunking independence (no dependence on buffer length/position/processed count), mono/stereo agreement, frame_registers bounds.",
+      "Not decided: transposition in Vtx::load and the total sample count (no induction over the loop).",
+      "DESIGN.md §3 C20")
